@@ -169,12 +169,21 @@ Theorem C11_simple_enum_first_match :
     (forall j v', (j < k)%nat -> nth_error vs j = Some v' -> v_raw v' <> s).
 Proof. exact simple_enum_first_match. Qed.
 
-(* ---- has_impl(Display) = true but no Display impl for String-constrained newtypes (see C17) ---- *)
+(* ---- internal has_impl(Display) = true but no Display impl for String-constrained newtypes;
+        the public facade answers false since 0e25061 (see C17) ---- *)
 Theorem C11_constrained_display_not_emitted :
   forall T f t n d i mx mn p,
     get_det T t = Some (DNewtype n d i (CString mx mn p)) ->
-    emits_display T f t = false /\ has_impl T (S f) t TDisplay = true.
+    emits_display T f t = false /\ has_impl T (S f) t TDisplay = true /\
+    api_has_impl T (S f) t TDisplay = false.
 Proof. exact constrained_display_not_emitted. Qed.
+
+(* the public Type::has_impl (fix 0e25061) differs from the internal has_impl only there *)
+Theorem C11_api_has_impl_internal :
+  forall T f t tr,
+    (forall n d i mx mn p, get_det T t = Some (DNewtype n d i (CString mx mn p)) -> tr <> TDisplay) ->
+    api_has_impl T f t tr = has_impl T f t tr.
+Proof. exact api_has_impl_internal. Qed.
 
 (* ---- a format string without braces is printed literally by write! ---- *)
 Theorem C11_fmt_render_literal :
